@@ -89,6 +89,14 @@ CHECKS = {
             "both vectors (or, for added methods, the library's own layer indices of the applicable candidates are seen to "
             "shift), and to F8 only when the real order relation is observed asymmetric or cyclic on the program's types.",
             "DESIGN.md §4 C06"),
+    "C12": ("exploration",
+            "runtime law monitor on typeorder: mirror symmetry, reflexivity, issubclass agreement and transitivity, generic and member laws, on generated closures and online on every pair the library compares during dispatch",
+            "All ordered pairs of a bounded-depth closure (built twice) are checked against the algebraic laws the statement "
+            "names; typeorder is additionally wrapped in the three modules that bound it, so every pair compared during an "
+            "embedded dispatch workload is re-asked in the opposite direction.",
+            "Only the stated laws raise alarms. F8 asymmetries are attributed only when a frozen transcription of the two "
+            "operands' own ordering rules, applied first-operand-wins, reproduces both observed answers.",
+            "DESIGN.md §4 C12"),
     "C07": ("exploration",
             "runtime monitor: delegation trees returned by generated bodies vs iterated-removal reference model",
             "Every body reports itself and what its call_next / f.next returned, so one call yields the whole chain; the "
